@@ -496,6 +496,7 @@ fn choose_faults(g: &mut Gen, frng: &mut Rng, mode: &str) -> Env {
             match frng.below(if own { 3 } else { 1 }) {
                 1 => SpanSel::OwnPath,
                 2 => SpanSel::OwnValue,
+                _ if all_items.is_empty() => SpanSel::OwnPath,
                 _ => SpanSel::Remote((usize::MAX, *frng.pick(&all_items) as usize)),
             }
         };
@@ -608,6 +609,9 @@ pub fn resolve_remote(env: &mut Env, doc: &InputDoc) {
 }
 
 pub fn generate(run_seed: u64, mode: &'static str, recvs: &'static std::collections::BTreeMap<&'static str, RecvDesc>) -> Scenario {
+    if mode != "map" && Rng::stream(run_seed, "family").pct(40) {
+        return generate_elem(run_seed, mode, recvs);
+    }
     let mut grng = Rng::stream(run_seed, "gen");
     let mut frng = Rng::stream(run_seed, "faults");
     let mistake_free = grng.pct(if mode == "wild" { 10 } else { 25 });
@@ -651,4 +655,258 @@ pub fn generate(run_seed: u64, mode: &'static str, recvs: &'static std::collecti
     resolve_remote(&mut env, &rendered);
     doc = rendered;
     Scenario { receiver: receiver.to_string(), entry, doc, env, mode: mode.to_string() }
+}
+
+// ------------------------------------------------------------------------------------------------
+// element-level workloads
+
+pub const ELEM_RECEIVERS: [&str; 14] = ["FR1", "FR2", "FR3", "VR1", "VR2", "TR1", "DI1", "DI2", "DI3", "DI4", "DI5", "DI6", "AT1", "AT2"];
+
+const FOREIGN: [&str; 8] = ["doc = \"hi\"", "cfg(test)", "keep", "keep(1 2)", "derive(Debug)", "other(a = 1)", "allow(dead_code)", "zz::yy(=)"];
+
+impl<'r> Gen<'r> {
+    /// Split `items` over 1..4 attributes named from `names`, interleaved with attributes nobody asked for.
+    fn attrs_for(&mut self, names: &[&'static str], items: Vec<Nested>) -> Vec<Attr> {
+        let mut out = Vec::new();
+        if names.is_empty() {
+            return out;
+        }
+        let parts = if items.is_empty() { self.rng.below(2) } else { self.rng.range(1, 4).min(items.len().max(1)) };
+        let mut chunks: Vec<Vec<Nested>> = vec![Vec::new(); parts];
+        if parts > 0 {
+            // keep source order: cut the sequence at random points
+            let mut cuts: Vec<usize> = (0..parts - 1).map(|_| self.rng.below(items.len() + 1)).collect();
+            cuts.sort();
+            let mut k = 0;
+            for (i, it) in items.into_iter().enumerate() {
+                while k < cuts.len() && i >= cuts[k] {
+                    k += 1;
+                }
+                chunks[k].push(it);
+            }
+        }
+        for c in chunks {
+            if self.rng.pct(35) {
+                out.push(Attr::Foreign(self.rng.pick(&FOREIGN).to_string()));
+            }
+            let name = *self.rng.pick(names);
+            let form = if c.is_empty() && self.rng.pct(50) { Form::Word } else { Form::List(c) };
+            let it = self.item(name, form);
+            out.push(Attr::Meta(it));
+        }
+        if self.rng.pct(35) {
+            out.push(Attr::Foreign(self.rng.pick(&FOREIGN).to_string()));
+        }
+        // attributes under a recognised name whose body is not a list of items
+        if self.mistake(self.cfg.allow.bad_value, 6) {
+            let name = *self.rng.pick(names);
+            let it = self.item(name, Form::NV(Value::Int("5".into())));
+            let pos = self.rng.below(out.len() + 1);
+            out.insert(pos, Attr::Meta(it));
+        }
+        if self.cfg.allow.malformed && self.rng.pct(8) {
+            let name = *self.rng.pick(names);
+            let f = self.bad_list();
+            let it = self.item(name, f);
+            let pos = self.rng.below(out.len() + 1);
+            out.insert(pos, Attr::Meta(it));
+        }
+        out
+    }
+
+    fn elem_attrs(&mut self, name: &str, depth: usize) -> Vec<Attr> {
+        let d = crate::schema::elems().get(name).expect("schema").clone();
+        if let Some(inner) = d.newtype_of {
+            return self.elem_attrs(inner, depth);
+        }
+        if let Some(s) = d.from_ident {
+            self.sites.push((s, "from_ident", false));
+        }
+        if let Some(AttrsField::With(s)) = d.attrs_field {
+            self.sites.push((s, "attrs_with", true));
+        }
+        if let Some(GenericsDesc::Probe(s)) = d.generics {
+            self.sites.push((s, "from_generics", true));
+        }
+        if let Some(DataDesc::With(s)) = d.data {
+            self.sites.push((s, "data_with", true));
+        }
+        let fake = recv("elem", Shape::Unit);
+        let items = self.struct_items(&fake, &d.fields, d.allow_unknown, depth);
+        self.attrs_for(&d.attr_names, items)
+    }
+
+    fn body_field_doc(&mut self, leaf: Option<&BodyLeaf>, named: Option<String>) -> FieldDoc {
+        let id = self.id();
+        let attrs = match leaf {
+            Some(BodyLeaf::Recv(n)) => self.elem_attrs(n, 1),
+            Some(BodyLeaf::Probe(_)) => {
+                self.probe_items.push((id, false));
+                if self.rng.pct(20) {
+                    vec![Attr::Foreign("doc = \"f\"".into())]
+                } else {
+                    vec![]
+                }
+            }
+            _ => vec![],
+        };
+        FieldDoc { id, attrs, name: named, ty: self.rng.pick(&["u32", "String", "T", "bool"]).to_string(), vis: self.rng.pick(&["", "pub", "pub(crate)"]).to_string(), r_ty: ZERO }
+    }
+
+    fn fields_doc(&mut self, leaf: Option<&BodyLeaf>, style: usize) -> FieldsDoc {
+        match style {
+            0 => FieldsDoc::Unit,
+            1 => {
+                let n = self.rng.below(4);
+                FieldsDoc::Named((0..n).map(|i| self.body_field_doc(leaf, Some(format!("f{}", i)))).collect())
+            }
+            2 => FieldsDoc::Tuple(vec![self.body_field_doc(leaf, None)]),
+            _ => {
+                let n = *self.rng.pick(&[0usize, 2, 3]);
+                FieldsDoc::Tuple((0..n).map(|_| self.body_field_doc(leaf, None)).collect())
+            }
+        }
+    }
+
+    fn variant_doc(&mut self, vleaf: Option<&BodyLeaf>, i: usize) -> VariantDoc {
+        let id = self.id();
+        let (attrs, fleaf) = match vleaf {
+            Some(BodyLeaf::Recv(n)) => {
+                let d = crate::schema::elems().get(n).expect("schema").clone();
+                (self.elem_attrs(n, 1), d.variant_fields.clone())
+            }
+            _ => (vec![], None),
+        };
+        let style = self.rng.below(4);
+        let fields = self.fields_doc(fleaf.as_ref(), style);
+        let discriminant = if matches!(fields, FieldsDoc::Unit) && self.rng.pct(20) { Some(format!("{}", i + 1)) } else { None };
+        VariantDoc { id, r_name: ZERO, attrs, name: format!("V{}", i), fields, discriminant }
+    }
+
+    fn body_doc(&mut self, d: &ElemDesc) -> Body {
+        let (vleaf, fleaf) = match &d.data {
+            Some(DataDesc::Data { variant, field }) => (Some(variant.clone()), Some(field.clone())),
+            _ => (None, None),
+        };
+        let r = self.rng.below(100);
+        if r < 6 {
+            let n = self.rng.range(1, 2);
+            return Body::Union((0..n).map(|i| self.body_field_doc(None, Some(format!("u{}", i)))).collect());
+        }
+        if r < 45 {
+            let n = self.rng.below(5);
+            return Body::Enum((0..n).map(|i| self.variant_doc(vleaf.as_ref(), i)).collect());
+        }
+        let style = self.rng.below(4);
+        Body::Struct(self.fields_doc(fleaf.as_ref(), style))
+    }
+
+    fn generics_doc(&mut self, tr: Option<&'static str>) -> Vec<TParamDoc> {
+        let n = self.rng.below(4);
+        (0..n)
+            .map(|i| {
+                let id = self.id();
+                let kind = *self.rng.pick(&["type", "type", "lifetime", "const"]);
+                let attrs = match (kind, tr) {
+                    ("type", Some(t)) => self.elem_attrs(t, 1),
+                    _ => vec![],
+                };
+                let name = match kind {
+                    "lifetime" => format!("l{}", i),
+                    "const" => format!("N{}", i),
+                    _ => format!("T{}", i),
+                };
+                TParamDoc { id, r_name: ZERO, attrs, name, bounds: if kind == "type" && self.rng.pct(30) { "Clone".into() } else { String::new() }, kind: kind.to_string() }
+            })
+            .collect()
+    }
+}
+
+pub fn generate_elem(run_seed: u64, mode: &'static str, recvs: &'static std::collections::BTreeMap<&'static str, RecvDesc>) -> Scenario {
+    let mut grng = Rng::stream(run_seed, "gen");
+    let mut frng = Rng::stream(run_seed, "faults");
+    let mistake_free = grng.pct(if mode == "wild" { 10 } else { 25 });
+    let on = |r: &mut Rng| r.pct(70);
+    let allow = if mistake_free {
+        Allow { unknown: false, repeat: false, literal: false, bad_value: false, arity: false, malformed: false }
+    } else {
+        Allow {
+            unknown: on(&mut grng),
+            repeat: on(&mut grng),
+            literal: on(&mut grng),
+            bad_value: on(&mut grng),
+            arity: on(&mut grng),
+            malformed: if mode == "wild" { on(&mut grng) } else { grng.pct(15) },
+        }
+    };
+    let cfg = GenCfg {
+        mode,
+        p_present: if mistake_free { 100 } else { *grng.pick(&[60u32, 85, 95]) },
+        mistakes_left: if mistake_free { 0 } else { grng.range(0, 8) },
+        allow,
+        max_depth: grng.range(1, 2),
+    };
+    let receiver = *grng.pick(&ELEM_RECEIVERS);
+    let top = crate::schema::elems().get(receiver).expect("schema").clone();
+    let d = match top.newtype_of {
+        Some(inner) => crate::schema::elems().get(inner).expect("schema").clone(),
+        None => top.clone(),
+    };
+    let mut g = Gen { rng: &mut grng, cfg, next_id: 0, probe_items: vec![], all_items: vec![], sites: vec![], none_sites: vec![], recvs };
+    let multiline = g.rng.pct(40);
+    let mut doc = InputDoc { attrs: vec![], ident: "Elem".into(), generics: vec![], body: Body::Struct(FieldsDoc::Unit), multiline };
+    let entry;
+    match d.kind {
+        ElemKind::DeriveInput => {
+            doc.attrs = g.elem_attrs(receiver, 0);
+            let tr = match &d.generics {
+                Some(GenericsDesc::Full(t)) => Some(*t),
+                _ => None,
+            };
+            doc.generics = g.generics_doc(tr);
+            doc.body = g.body_doc(&d);
+            entry = Entry::DeriveInput;
+        }
+        ElemKind::Attributes => {
+            doc.attrs = g.elem_attrs(receiver, 0);
+            entry = Entry::Attributes;
+        }
+        ElemKind::Field => {
+            let n = g.rng.range(1, 3);
+            let which = g.rng.below(n);
+            let named = g.rng.pct(70);
+            let leaf = BodyLeaf::Recv(top.name);
+            let fs: Vec<FieldDoc> = (0..n)
+                .map(|i| {
+                    let nm = if named { Some(format!("f{}", i)) } else { None };
+                    if i == which {
+                        g.body_field_doc(Some(&leaf), nm)
+                    } else {
+                        g.body_field_doc(None, nm)
+                    }
+                })
+                .collect();
+            doc.body = Body::Struct(if named { FieldsDoc::Named(fs) } else { FieldsDoc::Tuple(fs) });
+            entry = Entry::Field(which);
+        }
+        ElemKind::Variant => {
+            let n = g.rng.range(1, 3);
+            let which = g.rng.below(n);
+            let leaf = BodyLeaf::Recv(top.name);
+            let vs: Vec<VariantDoc> = (0..n).map(|i| if i == which { g.variant_doc(Some(&leaf), i) } else { g.variant_doc(None, i) }).collect();
+            doc.body = Body::Enum(vs);
+            entry = Entry::Variant(which);
+        }
+        ElemKind::TypeParam => {
+            let id = g.id();
+            let attrs = g.elem_attrs(receiver, 0);
+            doc.generics = vec![TParamDoc { id, r_name: ZERO, attrs, name: "T0".into(), bounds: String::new(), kind: "type".into() }];
+            entry = Entry::TypeParam(0);
+        }
+    }
+    let mut env = choose_faults(&mut g, &mut frng, mode);
+    let mut rendered = doc.clone();
+    let _ = render(&mut rendered);
+    resolve_remote(&mut env, &rendered);
+    Scenario { receiver: receiver.to_string(), entry, doc: rendered, env, mode: mode.to_string() }
 }
